@@ -50,7 +50,7 @@ PROPERTIES["C12"] = dict(
     ],
 )
 
-PIPE_FILES = ["pipeline/zz_verif_pipe.go", "pipeline/zz_verif_p08.go", "pipeline/zz_verif_p01.go", "pipeline/zz_verif_p01b.go", "pipeline/zz_verif_p01x.go", "pipeline/zz_verif_p01r.go", "pipeline/zz_verif_p13.go", "pipeline/zz_verif_p10.go", "pipeline/zz_verif_p10r.go", "pipeline/zz_verif_p09.go", "pipeline/zz_verif_p14.go", "pipeline/zz_verif_p12.go", "pipeline/zz_verif_p20.go", "pipeline/zz_verif_p07.go", "config::config/zz_verif_export.go", "annotation::annotation/zz_verif_export.go", "assertion/global::global/zz_verif_export.go", "assertion/function/functioncontracts::functioncontracts_export/zz_verif_export.go", "assertion/function::function_export/zz_verif_export.go"]
+PIPE_FILES = ["pipeline/zz_verif_pipe.go", "pipeline/zz_verif_p08.go", "pipeline/zz_verif_p01.go", "pipeline/zz_verif_p01b.go", "pipeline/zz_verif_p01x.go", "pipeline/zz_verif_p01r.go", "pipeline/zz_verif_p13.go", "pipeline/zz_verif_p10.go", "pipeline/zz_verif_p10r.go", "pipeline/zz_verif_p09.go", "pipeline/zz_verif_p14.go", "pipeline/zz_verif_p12.go", "pipeline/zz_verif_p20.go", "pipeline/zz_verif_p18.go", "pipeline/zz_verif_p07.go", "config::config/zz_verif_export.go", "annotation::annotation/zz_verif_export.go", "assertion/global::global/zz_verif_export.go", "assertion/function/functioncontracts::functioncontracts_export/zz_verif_export.go", "assertion/function::function_export/zz_verif_export.go", "util/tokenhelper::tokenhelper_export/zz_verif_export.go"]
 INFER_FILES = ["inference/zz_verif_c05.go", "inference/zz_verif_c05l2.go", "inference/zz_verif_c06.go", "inference/zz_verif_c04.go", "inference/zz_verif_c15.go", "inference/zz_verif_c15m.go", "inference/zz_verif_c08.go", "inference/zz_verif_registry.go",
                "annotation::annotation/zz_verif_export.go"]
 
@@ -567,3 +567,15 @@ PROPERTIES["C10"]["bounds"]["quick"] += "; P10R: 36 programs (result annotation 
 
 PROPERTIES["C10"]["runs"] += [dict(_P10, name="_contracts", quick=dict(params=dict(STMTS=2, COMPOUND=2, SIMPLE=5, CONTRACTS=1)), thorough=dict(params=dict(STMTS=2, COMPOUND=4, CONTRACTS=1)))]
 PROPERTIES["C10"]["bounds"]["quick"] += "; the same family over 5 straight-line forms with contract collection (real SSA, real inferContracts) switched on"
+
+PROPERTIES["C18"] = dict(
+    explanation=PIPE_EXPL + "C18: every two-package program of the C01 grammar is analysed under three layouts - module at /m started in /m; module relocated to /srv/x/m and started there; module at /m but started in /m/p. "
+                "The working directory is the value tokenhelper captured at start-up (set through an export helper), file names reach NilAway through the file set as a driver registers them, and the dependency's facts "
+                "(site identities with relativised file names) are handed to the importer. Relocation must give the same places and byte-identical messages; another working directory must give the same places, "
+                "i.e. every cross-package flow is still found. The RelToCwd kernel itself (real path/filepath) runs under C14.",
+    bounds=dict(quick="the 742 two-statement two-package programs x 3 layouts", thorough="the three-statement programs over 5 straight-line forms x 3 layouts"),
+    outside=PIPE_OUTSIDE + ["dependency and importer analysed with DIFFERENT working directories (separate tool invocations started in different directories)", "symbolic links, relative file names handed out by sandboxing drivers, Windows paths",
+                            "-print-full-file-path (the kernel under C14 covers RelToCwd; the flag's plumbing is not run here)", "facts are handed over by reference, not through gob"],
+    assumptions=PIPE_ASSUME + ["the working directory is injected by assigning tokenhelper's captured value (os.Getwd is not called)"],
+    runs=[dict(pkg="accumulation", files=PIPE_FILES, entry="Harness_P18", quick=dict(params=dict(STMTS=2, COMPOUND=5)), thorough=dict(params=dict(STMTS=3, COMPOUND=4, SIMPLE=5)), args=dict(sample_every=61, max_samples=16))],
+)
